@@ -56,3 +56,36 @@ def capture_print(gen, count):
 
 def ev_tuple(e):
     return (e.timestamp, e.data, tuple(e.values), e.tid, e.debugid, e.eventid, e.func_qualifier)
+
+
+def pollute_other_objects(table, stream, data=None):
+    """An earlier use of the library in the same process through OTHER objects: a TracesParser / CallstacksParser pair fed the
+    STARTs, data records, image maps and first chunks of the stream (operations left unfinished), and - when dump bytes are
+    given - a PyKdebugParser that listed, traced and symbolicated that dump.  Nothing of this may reach objects created later
+    (no module-level caches, class attributes or mutable default arguments)."""
+    from .. import kernel
+    tp = {r['t']: 424242 for r in stream}
+    ep = tool.tp_mod.TracesParser(table, tp, {424242: 'earlier'})
+    cp = tool.cs_mod.CallstacksParser([], [])
+
+    def gen():
+        for r in stream:
+            nm = table.get(r['id'], '')
+            if r['q'] == 1 or nm.startswith(('TRACE_DATA', 'DYLD_uuid', 'PERF_STK', 'PERF_THD')) or (r['q'] == 0 and '/c' in r['o']):
+                try:
+                    t = ep.feed(tool.kevent(kernel.to_bytes(r)))
+                except Exception:
+                    continue
+                if t is not None:
+                    yield t
+    try:
+        for _ in cp.feed_generator(gen()):
+            pass
+    except Exception:
+        pass
+    if data is not None:
+        other = tool.pk_mod.PyKdebugParser()
+        other.filter_class = [4]
+        for fn in (lambda rd: other.kevents(rd), lambda rd: other.traces(rd, table), lambda rd: other.callstacks(rd, table),
+                   lambda rd: other.os_log_events(rd)):
+            drain(lambda: fn(SimReader(data[:max(0, len(data) * 2 // 3)])))
